@@ -160,7 +160,7 @@ package service
 //@ spec abstract fn txDigest(t types.Transaction) common.Hash
 //@ spec abstract fn recov(s common.Sign, m Bytes) common.PublicKey
 //@ spec abstract fn recovOK(s common.Sign, m Bytes) bool
-//@ spec abstract fn pkVerify(pk common.PublicKey, m Bytes, s common.Sign) bool
+//@ spec fn pkVerify(pk common.PublicKey, m Bytes, s common.Sign) bool = secpVerify(pkEnc(pk), m, sigRS(s))
 //@ spec abstract fn pkAddr(pk common.PublicKey) common.Address
 //@ spec abstract fn addrHex(a common.Address) string
 //@ spec abstract fn chainIdAt(h uint64) string
@@ -180,12 +180,7 @@ package service
 //@   ensures (result1 == nil) == recovOK(arg0, old(bytes(arg1))) && (result1 == nil ==> result0 != nil && *result0 == recov(arg0, old(bytes(arg1))))
 //@   modifies nothing
 
-//@ func ext_pkVerify
-//@   option trusted extern=(com.tuntun.rangers/node/src/common.PublicKey).Verify
-//@   requires arg2 != nil
-//@   ensures result == pkVerify(arg0, old(bytes(arg1)), *arg2)
-//@   modifies nothing
-
+// (common.PublicKey.Verify has its own contract in src/common: strict libsecp256k1 verification)
 //@ func ext_pkGetAddress
 //@   option trusted extern=(com.tuntun.rangers/node/src/common.PublicKey).GetAddress
 //@   ensures result == pkAddr(arg0)
@@ -243,13 +238,12 @@ package service
 // ---------------------------------------------------------------------------------------------
 // Miner registry and refund queue as seen from the EVM's stake opcodes (C12): they read and write the account
 // database, i.e. the world state (the version ghost of the vm package).
+// (lookup in both registries; the stake of the record found is the stored stake, see the C20 section below)
 //@ func MinerManager.GetMiner
-//@   option trusted
+//@   property C20
+//@   requires [singletons!init] MinerManagerImpl != nil
+//@   ensures result != nil ==> fresh(result) && Z(result.Stake) == @select(ghost(mstake), old(bytes(minerId))) && bytes(result.Id) == old(bytes(minerId))
 //@   modifies nothing
-
-//@ func RefundManager.GetRefundStake
-//@   option trusted
-//@   modifies ghost(stver)
 
 //@ func RefundManager.Add
 //@   option trusted
@@ -415,3 +409,29 @@ package service
 //@   ensures [oneminer] result0 ==> noMatch(common.MinerTypeValidator, seqLen(regSeq(common.MinerTypeValidator)), old(bytes(miner.Account))) && noMatch(common.MinerTypeProposer, seqLen(regSeq(common.MinerTypeProposer)), old(bytes(miner.Account)))
 //@   ensures [stored]   result0 ==> @select(ghost(mstake), bytes(miner.Id)) == miner.Stake
 //@   ensures [paid]     result0 ==> balOf(addr) == old(balOf(addr)) - stakeUnits(real(miner.Stake)) && balOf(addr) >= 0 && forall a common.Address :: a != addr ==> balOf(a) == old(balOf(a))
+
+// Refunding stake (C20): the amount handed back for crediting equals exactly the decrease of the stake stored
+// for the miner - also when the remainder falls below the minimum and the record is kept as aborted with the
+// remainder in it; only the record's owner can refund; a rejected request changes nothing.
+//@ func MinerManager.RemoveMiner
+//@   option trusted
+//@   ensures ghost(mstake) == @store(old(ghost(mstake)), old(bytes(id)), Z(left))
+//@   modifies ghost(mstake), ghost(stver)
+
+//@ func RefundManager.getRefundHeight
+//@   option trusted
+//@   modifies nothing
+
+//@ func RefundManager.GetRefundStake
+//@   property C20
+//@   option intmode=math
+//@   requires [singletons!init] this != nil && this.logger != nil && MinerManagerImpl != nil && MinerManagerImpl.logger != nil
+//@   requires [wf!init] forall k Bytes :: @select(ghost(mstake), k) >= 0
+//@   ensures [rejected]  result3 != nil ==> ghost(mstake) == old(ghost(mstake)) && result1 == nil
+//@   ensures [conserved] result3 == nil ==> result1 != nil && big(result1) == (old(@select(ghost(mstake), bytes(minerId))) - @select(ghost(mstake), old(bytes(minerId)))) * 1000000000000000000
+//@   ensures [enough]    result3 == nil ==> @select(ghost(mstake), old(bytes(minerId))) >= 0 && @select(ghost(mstake), old(bytes(minerId))) <= old(@select(ghost(mstake), bytes(minerId)))
+//@   ensures [asked]     result3 == nil && money != 18446744073709551615 ==> old(@select(ghost(mstake), bytes(minerId))) - @select(ghost(mstake), old(bytes(minerId))) == money
+//@   ensures [all]       result3 == nil && money == 18446744073709551615 ==> @select(ghost(mstake), old(bytes(minerId))) == 0
+//@   ensures [owner]     result3 == nil ==> bytes(result2) == old(bytes(account))
+//@   ensures [others]    forall k Bytes :: k != old(bytes(minerId)) ==> @select(ghost(mstake), k) == old(@select(ghost(mstake), k))
+//@   modifies ghost(mstake), ghost(stver)
